@@ -75,11 +75,12 @@ Proof.
 Qed.
 
 (* ------------------------------------------------------------------ non-vacuity *)
-(* source: a struct (data word 7) with a byte list "abc", a bit list (3 bits, byte 0xfd) and a child
-   struct (data word 5); destination: a fresh single-segment message (root word allocated).  Every
+(* source: a struct (data word 7) with a byte list "abc", a pointer list holding one struct, a bit
+   list (3 bits, byte 0xfd) and a struct list of two elements; destination: a fresh single-segment message (root word allocated).  Every
    hypothesis of copy_value_ptr holds and the copy succeeds. *)
 Definition msg_cv : segs :=
-  [wbytes [struct_word 0 1 3; 7; list_word 2 2 3; list_word 2 1 3; struct_word 2 1 0; 6513249; 253; 5]].
+  [wbytes [struct_word 0 1 4; 7; list_word 3 2 3; list_word 3 6 1; list_word 4 1 3; list_word 4 7 2;
+           6513249; struct_word 0 1 0; 5; 253; struct_word 2 1 0; 7; 0]].
 Definition root_cv : Ptr :=
   match fst (readPtr true msg_cv 1000000 0 (nth 0 msg_cv []) 0 64) with Ok q => q | _ => nullPtr end.
 
